@@ -53,11 +53,11 @@ PROPS["C03"] = {
 PROPS["C05"] = {
     "title": "A new version becomes active only when the promotion rule allows it",
     "level": "exploration",
-    "level_text": "The promotion lattice of the property (strategy x age-vs-duration incl. the boundary instants x noRestartsDuration x last restart x pause source x unpaused x canary-valid x failed x recorded active set present / being deleted under a finalizer / gone x recorded status.canary; 48384 points) is enumerated completely through the real ExtendedDaemonSet Reconcile on a store prepared by the real reconciler, on the virtual clock; each switch of status.activeReplicaSet is judged by a reference rule (three-valued at the boundary instants). The same rule is checked after every EDS reconcile of generated histories.",
+    "level_text": "The promotion lattice of the property (strategy x age-vs-duration incl. the boundary instants x noRestartsDuration x last restart x pause source x unpaused x canary-valid x failed x recorded active set present / being deleted under a finalizer / gone x recorded status.canary; 48384 points) is enumerated completely through the real ExtendedDaemonSet Reconcile on a store prepared by the real reconciler, on the virtual clock; each switch of status.activeReplicaSet is judged by a reference rule (three-valued at the boundary instants). The same rule is checked after every EDS reconcile of generated histories. A second job plays the complete product of failure routes x faults of the rollback's two-write window x pause x elapsed duration x reconcile order as histories and demands that a canary marked failed never becomes active (promotion-rule and canary-latch monitors after every reconcile, end-state check).",
     "level_note": "Exhaustive only for the finite lattice named here (exhaustive_subspaces in the evidence); durations other than the sampled ones and interleavings are covered by sampling in the history tests.",
     "technique": "exhaustive enumeration of a finite input lattice + property-based sampling (rapid) against a reference promotion rule; stateful histories with a per-reconcile invariant",
-    "quick": {"jobs": [rapid_job("lattice-sample", "^TestC05Lattice$", 1500), rapid_job("lattice-all", "^TestC05Exhaustive$", 1, shards=4)]},
-    "thorough": {"jobs": [rapid_job("lattice-sample", "^TestC05Lattice$", 10000, shards=4), rapid_job("lattice-all", "^TestC05Exhaustive$", 1, shards=8)]},
+    "quick": {"jobs": [rapid_job("lattice-sample", "^TestC05Lattice$", 1500), rapid_job("lattice-all", "^TestC05Exhaustive$", 1, shards=4), rapid_job("failed-stays", "^TestC05FailedStays$", 1, shards=4)]},
+    "thorough": {"jobs": [rapid_job("lattice-sample", "^TestC05Lattice$", 10000, shards=4), rapid_job("lattice-all", "^TestC05Exhaustive$", 1, shards=8), rapid_job("failed-stays", "^TestC05FailedStays$", 1, shards=4)]},
 }
 
 PROPS["C15"] = {
